@@ -1255,6 +1255,23 @@ static int _GD_Rename(DIRFILE *D, gd_entry_t *E, const char *new_name,
 
   D->fragment[E->fragment_index].modified = 1;
 
+  /* A /REFERENCE directive (or an implicit reference recorded for a fragment)
+   * which names this field follows it */
+  {
+    int f;
+    for (f = 0; f < D->n_fragment; ++f)
+      if (D->fragment[f].ref_name != NULL &&
+          strcmp(D->fragment[f].ref_name, E->field) == 0)
+      {
+        char *ref = _GD_Strdup(D, name);
+        if (ref != NULL) {
+          free(D->fragment[f].ref_name);
+          D->fragment[f].ref_name = ref;
+          D->fragment[f].modified = 1;
+        }
+      }
+  }
+
   /* Update database metadata */
   _GD_PerformRename(D, rdat);
 
